@@ -11,6 +11,8 @@
 #include "stir/recon_buildblock/ProjMatrixByBinUsingRayTracing.h"
 #include "stir/recon_buildblock/ProjMatrixByBinUsingInterpolation.h"
 #include "stir/recon_buildblock/ProjMatrixByBinFromFile.h"
+#include "stir/recon_buildblock/ProjMatrixByBinSPECTUB.h"
+#include "stir/ProjDataInfoCylindricalArcCorr.h"
 #include "stir/recon_buildblock/ProjMatrixElemsForOneBin.h"
 #include "stir/recon_buildblock/DataSymmetriesForBins_PET_CartesianGrid.h"
 #include "stir/recon_buildblock/SymmetryOperation.h"
@@ -25,6 +27,7 @@ using namespace stir;
 
 struct DataCfg {
   int N = 16, R = 3, span = 1, maxDelta = 2, mash = 1, tofMash = 0, maxT = 0, numTang = 7;
+  bool spect = false;           // arc-corrected data of one segment with R axial positions (ProjMatrixByBinSPECTUB)
   int cpb = 0;                  // BlocksOnCylindrical: axial crystals per block (0: one crystal per block, vh::make_scanner)
   float axial_gap = 0.F;        // BlocksOnCylindrical: extra distance between axial blocks in mm
   float ring_spacing = 4.F, tilt = 0.F;
@@ -53,6 +56,13 @@ inline shared_ptr<Scanner> make_blocks_scanner(const DataCfg& d) {
                                          d.ring_spacing, xtal, d.ring_spacing * d.cpb + d.axial_gap, xtal * tpb));
 }
 inline shared_ptr<ProjDataInfo> make_pdi(const DataCfg& d) {
+  if (d.spect) {
+    shared_ptr<Scanner> sc(new Scanner(Scanner::User_defined_scanner, "tinyspect", d.N, d.R, d.numTang, d.numTang, 100.F, 0.F, d.ring_spacing, 4.F, 0.F,
+                                       1, 1, 1, 1, 1, 1, 1));
+    VectorWithOffset<int> nax(0, 0), mn(0, 0), mx(0, 0);
+    nax[0] = d.R; mn[0] = 0; mx[0] = 0;
+    return shared_ptr<ProjDataInfo>(new ProjDataInfoCylindricalArcCorr(sc, 4.F, nax, mn, mx, d.N / 2, d.numTang));
+  }
   shared_ptr<Scanner> sc = (d.geom == "BlocksOnCylindrical" && d.cpb > 0) ? make_blocks_scanner(d)
                                                                          : vh::make_scanner(d.N, d.R, d.maxT, d.geom, d.ring_spacing, -1, d.tilt);
   return ProjDataInfo::construct_proj_data_info(sc, d.span, d.maxDelta, d.N / 2 / d.mash, d.numTang, false, d.tofMash);
